@@ -1,0 +1,18 @@
+//go:build verif
+
+package graphite
+
+// Contracts checked by /verif/gvc. Comment-only file (build tag verif).
+// C16: every flush request is answered through exactly one completion path (calls(Name): number of calls named
+// Name executed so far by the function; calls(goK): executions of its K-th go statement).
+// SendMetricsAsync either reports cancellation itself or hands the callback, inside one stream, to the sender.
+//@ func (*Client).SendMetricsAsync
+//@   requires client != nil && cb != nil && metrics != nil
+//@   sendsite requires [sender.Stream] ch == client.sender.Sink && val.Cb == cb && val.Ctx == ctx
+//@   ensures  calls(cb) + sent(old(client.sender.Sink)) - old(sent(client.sender.Sink)) == 1
+//@   modifies everything
+//@ func (*Client).preparePayload
+//@   trusted
+//@   ensures result != nil
+//@   modifies everything
+//@   preserves graphite.Client, sender.Sender
